@@ -106,6 +106,14 @@ impl Renderer {
 		// convert from frames to requested number of channels
 		for (i, channels) in chunk.chunks_mut(num_channels.into()).enumerate() {
 			let mut frame = self.temp_buffer[i];
+			// f32::clamp passes NaN through; never hand NaN to the audio device
+			// (e.g. a gain that overflowed to infinity multiplied by a silent sample)
+			if frame.left.is_nan() {
+				frame.left = 0.0;
+			}
+			if frame.right.is_nan() {
+				frame.right = 0.0;
+			}
 			frame.left = frame.left.clamp(-1.0, 1.0);
 			frame.right = frame.right.clamp(-1.0, 1.0);
 			if num_channels == 1 {
